@@ -232,6 +232,37 @@ static void run_case(uint64_t seed, int64_t run, bool thorough, const std::vecto
   rm_rf(tree.root);
 }
 
+// C17 through the command line: `yarac` writes a rule file, the writer "crashes" after n bytes, `yara -C` must refuse
+// the prefix with an error (never scan with it, never quietly treat it as something else)
+static void run_c17cli(uint64_t seed, int64_t run, bool thorough, Stats& st, std::set<std::string>& reported, int64_t only_n = -1) {
+  Rng rng(sim_run_seed(seed, 777000 + run));
+  std::string work = tmp_dir() + "/c17cli"; mkdirs(work);
+  int rs = (int) rng.below(NRULESETS);
+  std::string rules_path = work + "/rules.yar", yarc = work + "/rules.yarc", target = work + "/target.txt";
+  write_file(rules_path, RULESETS[rs]); write_file(target, "some alpha_text here and reg42ex too abab abab\n"); unlink(yarc.c_str());
+  SchedPolicy p1; p1.kind = 2; p1.switch_den[0] = 64; p1.bb_mean = 1000000; p1.max_steps = 50000000;
+  std::vector<std::string> cav{"yarac"}; for (auto& e : ext_args()) cav.push_back(e); cav.push_back(rules_path); cav.push_back(yarc);
+  InvResult c = run_cli(true, cav, 1, p1, 1);
+  bool ok; std::string image = read_file(yarc, &ok);
+  if (c.status != 0 || c.rc != 0 || !ok || image.size() < 20) { emit_note("c17cli: yarac failed"); return; }
+  std::set<size_t> cuts; if (only_n >= 0) cuts.insert((size_t) only_n);
+  else { for (size_t n = 0; n <= 7; n++) cuts.insert(n); cuts.insert(6 + 12 * (unsigned char) image[5]); cuts.insert(image.size() - 1); cuts.insert(image.size() - 8); int extra = thorough ? 24 : 6; for (int k = 0; k < extra; k++) cuts.insert(rng.below(image.size())); }
+  for (size_t n : cuts) {
+    std::string cut = work + "/cut.yarc"; write_file(cut, image.substr(0, n));
+    std::vector<std::string> av{"yara", "-p", "1", "-C", cut, target};
+    InvResult r = run_cli(false, av, rng.next(), p1, 1);
+    st.runs++; st.c["faults_fired.rule_file_cut_at_byte_n"]++; st.c["cli_invocations"]++;
+    Hash64 h; h.add("c17cli"); h.addu(run); h.addu(n); st.hash(h.h);
+    std::string sig, klass, detail;
+    if (r.status == 3) { klass = "crash"; sig = "cli-load|crash|" + sim_crash_signature(r.iso); detail = r.iso.err.substr(0, 1500); }
+    else if (r.status != 0) { klass = "hang"; sig = "cli-load|no-termination"; }
+    else if (r.rc == 0 || r.err.empty()) { klass = "truncated-file-loaded"; sig = std::string("cli-load|prefix-accepted|") + (n == 0 ? "empty-file" : n < 6 ? "inside-header" : "beyond-header"); detail = "yara -C on a " + std::to_string(n) + "-byte prefix of a " + std::to_string(image.size()) + "-byte rule file exited " + std::to_string(r.rc) + " with stderr '" + r.err.substr(0, 120) + "' and stdout '" + r.out.substr(0, 120) + "'"; }
+    else if (!r.out.empty()) { klass = "truncated-file-loaded"; sig = "cli-load|output-despite-error"; detail = r.out.substr(0, 200); }
+    if (!sig.empty()) { st.c["viol." + klass]++; if (reported.insert(sig).second || only_n >= 0) { J rp = J::obj(); rp.set("engine", "sim_cli"); rp.set("c17cli", true); rp.set("seed", (int64_t) seed); rp.set("run", run); rp.set("n", (int64_t) n); emit_violation("C17", klass, sig, detail, rp); } }
+    if (st.samples.size() < 2) { J s = J::obj(); s.set("image_bytes", (int64_t) image.size()); s.set("cut_at", (int64_t) n); s.set("exit", r.rc); s.set("stderr", r.err.substr(0, 100)); st.sample(s); }
+  }
+}
+
 int main(int argc, char** argv) {
   Args args(argc, argv);
   sim_symbolize((void*) &main);
@@ -241,7 +272,8 @@ int main(int argc, char** argv) {
   if (cmd == "replay") {
     J rp; if (args.pos.size() < 2 || !J::load(args.pos[1], rp)) return 2;
     const J& c = rp.has("replay") ? rp["replay"] : rp;
-    run_case((uint64_t) c["seed"].num(), c["run"].num(), c["thorough"].truthy(), contents, st, reported, true);
+    if (c["c17cli"].truthy()) run_c17cli((uint64_t) c["seed"].num(), c["run"].num(), false, st, reported, c["n"].num());
+    else run_case((uint64_t) c["seed"].num(), c["run"].num(), c["thorough"].truthy(), contents, st, reported, true);
     J done = J::obj(); done.set("t", "replayed"); emit_line(done);
     return 0;
   }
@@ -254,7 +286,8 @@ int main(int argc, char** argv) {
   for (int64_t i = from; i < nruns; i++) {
     if (!sh.mine(i)) continue;
     if (now_s() - t0 > budget) { st.c["stopped_by_budget"]++; break; }
-    run_case(seed, i, thorough, contents, st, reported, false);
+    if (args.get("mode", "") == "c17cli") run_c17cli(seed, i, thorough, st, reported);
+    else run_case(seed, i, thorough, contents, st, reported, false);
     st.c["reference_invocations"] = g_ref_runs;
     if (st.hashes.size() > 300) st.flush(false);
   }
